@@ -9,8 +9,19 @@ package eventlog
 //@   sweep[C07]
 //@   ensures[C07] err == nil ==> len(result1) >= 2 && len(result1) % 2 == 0 && len(result1) == len(loc) - 16
 
+// C07: a UEFI-variable locator reaches the variable reader only with a name of at least one UCS-2 unit, so the
+// terminator handling of ucs2toUTF8 never indexes an empty string.
+//@ func ucs2toUTF8
+//@   requires len(name) >= 2
+//@   assigns nothing
+//@   modifies rdLeft
+//@   sweep[C07] index slice
+//@ func validateUCS2Codepoints trusted
+//@   assigns nothing
+
 //@ func Locate
 //@   requires opts != nil
+//@   atcall ReadVariable requires[C07] len(p2) >= 2
 //@   ghostset locateCalls = locateCalls + 1
 //@   sweep[C07] nil index slice div makeslice typeassert panic
 //@   modifies *
@@ -22,13 +33,13 @@ package eventlog
 
 // Confinement (C16): the only file ever read is the path securejoin returned for the configured root.
 //@ func (*EfiVarFSReader).varBasename
-//@   requires r != nil
+//@   requires r != nil && len(name) >= 2
 //@   assigns nothing
 //@   modifies rdLeft
 //@   ensures[C16] err == nil ==> confinedTo(r.Root, result0)
 
 //@ func (*EfiVarFSReader).ReadVariable
-//@   requires r != nil
+//@   requires r != nil && len(name) >= 2
 //@   assigns nothing
 //@   modifies rdLeft
 //@   sweep[C07] index slice
